@@ -1,7 +1,7 @@
 (** Correspondence glue for the frames unit: a case is what harness/drv/frames.go logged. *)
 From Coq Require Import List ZArith Bool String.
 From V Require Export Wire.FramesBase.
-From V Require Import Lib.Corr Lib.Hex Gen.Params Wire.Varint Wire.FramesCtl Wire.FramesStream Wire.FramesAck Wire.Frames.
+From V Require Import Lib.Corr Lib.Hex Gen.Params Wire.Varint Wire.FramesCtl Wire.FramesStream Wire.FramesAck Wire.Frames Wire.FramesLen.
 Import ListNotations.
 Open Scope Z_scope.
 
@@ -24,7 +24,8 @@ Definition model_obs (c : case) : obs :=
   match c with
   | EncCase f _ _ => EncObs (append_frame f) (length_frame f)
   | ParseCase dg rsa af exp lvl input _ _ _ =>
-    match parse_next (Cfg dg rsa af exp) lvl (hx input) with
+    (* the connection's loop: advance by the counts ParseType and the body parser REPORT *)
+    match parse_next_rep (Cfg dg rsa af exp) lvl (hx input) with
     | Ok (f, n, _) => ParseObs 0 n (Some f)
     | Err e n => ParseObs e n None
     end
